@@ -123,6 +123,7 @@ func (corSelf *CorDef[T]) YieldRef(out T) T {
 	var more bool
 	// fmt.Println(corSelf, "Wait for", "op")
 	op, more = <-corSelf.opCh
+	verifPoint("cor.yieldref.afterRecv")
 	// fmt.Println(corSelf, "Wait for", "op", "done")
 
 	if more && op != nil && op.cor != nil {
@@ -149,6 +150,7 @@ func (corSelf *CorDef[T]) YieldFrom(target *CorDef[T], in T) T {
 	}
 
 	// fmt.Println(corSelf, "Wait for", "result")
+	verifPoint("cor.yieldfrom.beforeResult")
 	result, _ = <-corSelf.resultCh
 	// fmt.Println(corSelf, "Wait for", "result", "done")
 
@@ -160,6 +162,7 @@ func (corSelf *CorDef[T]) receive(cor *CorDef[T], in T) bool {
 	corSelf.doCloseSafe(func() {
 		if corSelf.opCh != nil {
 			// fmt.Println(corSelf, "Wait for", "receive", cor, in)
+			verifPoint("cor.receive.beforeSend")
 			corSelf.opCh <- &CorOp[T]{cor: cor, val: in}
 			delivered = true
 			// fmt.Println(corSelf, "Wait for", "receive", "done")
@@ -197,6 +200,7 @@ func (corSelf *CorDef[T]) IsStarted() bool {
 
 func (corSelf *CorDef[T]) close() {
 	corSelf.isClosed.Set(true)
+	verifPoint("cor.close.afterFlag")
 
 	corSelf.closedM.Lock()
 	if corSelf.resultCh != nil {
@@ -209,6 +213,7 @@ func (corSelf *CorDef[T]) close() {
 }
 
 func (corSelf *CorDef[T]) doCloseSafe(fn func()) {
+	verifPoint("cor.closesafe.beforeLock")
 	corSelf.closedM.Lock()
 	defer corSelf.closedM.Unlock()
 	// Check under the lock: close() closes the channels while holding it
